@@ -156,6 +156,18 @@ def check_backend(case, sub="backend"):
         s = c13.compile_state(sub, backend, circ, backend, 0, False)
         if not c13.state_matches(s, backend, v, n):
             raise Violation(sub, "wrapper-order", backend, t, "wrapper %s on %s: backend %s does not apply the matrix product of the list" % (w, t, backend))
+    # the same wrapper carrying ONE noise model for the whole gate (an identity Pauli error: no effect) goes through another
+    # branch of unwrap(): it must denote the same unitary, with noise simulation off and on
+    import graphiq.noise.noise_models as nm
+
+    circ1 = gc.build(desc, [None, None, nm.PauliError("I")])
+    for backend in ("stab", "dm"):
+        for noise_on in (False, True):
+            s = c13.compile_state(sub, backend, circ1, backend, 0, noise_on)
+            if not c13.state_matches(s, backend, v, n):
+                raise Violation(sub, "wrapper-order", backend, t + ":single_noise_model",
+                                "wrapper %s with one (identity) noise model for the whole gate, noise simulation %s: backend %s does not apply the matrix product of the list" % (
+                                    w, "on" if noise_on else "off", backend))
     # exported composite gate, standard reading
     text = guarded(sub, "qasm", circ.to_openqasm)
     try:
